@@ -8,6 +8,7 @@ Cryptography is abstract: `C.hash` (Keccak-256) and `C.recover` (secp256k1 publi
 derivation) are uninterpreted; nothing is assumed about them except where a hypothesis says so explicitly.
 -/
 import YouVerif.C17.ProofsSpec
+import YouVerif.C17.ProofsLate
 import YouVerif.C17.ProofsSender
 
 namespace YouVerif.C17
@@ -273,6 +274,25 @@ theorem late_error_needs_caller_revert (E : Env) (s : St) (acc : Acc) (m : Msg) 
   unfold applyMessageEntry at herr hst
   have := entry_late_error (env_conv_safe E m hg) herr he
   exact ⟨this.1, by rw [hst]; exact this.2, hacc⟩
+
+/-- The other late error, `vm.ErrInsufficientBalance` at top level (the value exceeds what is left after the gas
+purchase): the EVM touched nothing and returned all its gas, so the sender stays charged the intrinsic gas, the pool
+is short of it and — for a call — the nonce is already bumped. Again the callers undo it (block rejected / worker
+revert), again the worker does not restore the pool. -/
+theorem late_insufficient_balance_needs_caller_revert {E : Env} {s : St} {acc : Acc} {m : Msg}
+    (hE : EvmSpec E.evm m) (hns : E.isStaking m = false)
+    (hlim : m.f.gasLimit < U64) (hpool : s.pool < U64) (hr0 : s.refund = 0)
+    (h : (applyMsg E s acc m).out = .error .insufficientBalance) :
+    ∃ ig, intrinsicGas (E.basicGas m) m.f.data = some ig ∧ ig ≤ m.f.gasLimit ∧
+      (s.world.get m.sender).nonce = m.f.nonce ∧
+      (s.world.get m.sender).balance - ((m.f.gasLimit * m.f.price : Nat) : Int) < (m.f.value : Int) ∧
+      (applyMsg E s acc m).st.pool = s.pool - ig ∧
+      ((applyMsg E s acc m).st.world.get m.sender).balance =
+        (s.world.get m.sender).balance - ((ig * m.f.price : Nat) : Int) ∧
+      ((applyMsg E s acc m).st.world.get m.sender).nonce =
+        (if m.f.to.isSome then (m.f.nonce + 1) % U64 else m.f.nonce) ∧
+      (applyMsg E s acc m).acc = acc :=
+  late_insufficient_balance hE hns hlim hpool hr0 h
 
 /-- After any error the worker's snapshot/revert leaves accounts, refund counter and accumulators as they were. -/
 theorem worker_restores_state (E : Env) (s : St) (acc : Acc) (m : Msg) (e : Err)
